@@ -186,6 +186,7 @@ def run(ctx):
     results = mclib.run_many(ctx, interp, jobs, timeout=40 if quick else 120)
     lines, meta = [], []
     reported = 0
+    todo = []
     for (i, red), p, _ in jobs:
         res = results[(i, red)]
         if res["timeout"] or res["rc"] == 0:
@@ -208,13 +209,22 @@ def run(ctx):
             ctx.cov["evaluations"] += 1
             ctx.violation("a %s is reported without a replayable path" % kind, case, key=None)
             continue
-        path = m[0]
+        case.update({"path": m[0], "kind": kind})
+        todo.append(case)
+    # two replays of every reported path in the plain binary, in parallel
+    from concurrent.futures import ThreadPoolExecutor
+    with ThreadPoolExecutor(max_workers=int(os.environ.get("VERIF_MC_WORKERS", "12"))) as ex:
+        futs = [(case, ex.submit(mclib.run_plain, ctx, interp, case["program"], case["path"]),
+                 ex.submit(mclib.run_plain, ctx, interp, case["program"], case["path"])) for case in todo]
+        replays = [(case, f1.result(), f2.result()) for case, f1, f2 in futs]
+    for case, r1, r2_ in replays:
+        p, path, kind, red = case["program"], case["path"], case["kind"], case["cfg"]
         reported += 1
-        r1 = mclib.run_plain(ctx, interp, p, path)
-        r2_ = mclib.run_plain(ctx, interp, p, path)
+        if r1["timeout"] or r2_["timeout"]:
+            continue
         c1, v1 = replay_summary(r1["text"])
         c2, v2 = replay_summary(r2_["text"])
-        case.update({"path": path, "kind": kind, "replay1": [c1, v1], "replay2": [c2, v2]})
+        case.update({"replay1": [c1, v1], "replay2": [c2, v2]})
         ctx.cov["evaluations"] += 1
         if (c1, v1) != (c2, v2):
             ctx.violation("two replays of the reported path differ", case, key=None)
